@@ -183,11 +183,9 @@ def check_C03(run):
         run.distinct.add((tid, vf.digest(v)))
         i += 1
     cmds += int_exhaustive_cmds(types, (1, 2) if thorough else (1,))
-    cmds = with_resets(cmds)
+    cmds = with_resets(cmds) + [{"c": "forms", "n": 72}]
     run.samples = [c for c in cmds if c.get("c") == "w"][:3]
-    trace = vf.exec_commands(run, exe, cmds, 'c03')
-    rejected = vf.tlc_validate(run, 'TrCodec', 'TrCodec.cfg', trace, env_for('C03', types_path))
-    add_rejections(run, rejected, key_codec('C03'), index_cmds(cmds))
+    run_codec(run, 'C03', cmds)
     return vf.finish(run, rule='every pool type x boundary/random values (written twice) through rotating writer kinds; '
                                'distinct = distinct (type, value)')
 
@@ -235,14 +233,9 @@ def check_C01(run):
                 groups.append([w, r])
                 run.distinct.add((tid, wk, rk, vf.digest(seq)))
             n += 1
-    cmds = with_group_resets(groups)
+    cmds = with_group_resets(groups) + [{"c": "forms", "n": 72}]
     run.samples = groups[0][:2] + groups[len(groups) // 2][:2]
-    futs = [start_model_check(run, *m[0], **m[1]) for m in (MC_WIRE, mc_session(run))]
-    trace = vf.exec_commands(run, exe, cmds, 'c01')
-    rejected = vf.tlc_validate(run, 'TrCodec', 'TrCodec.cfg', trace, env_for('C01', types_path))
-    add_rejections(run, rejected, key_codec('C01'), index_cmds(cmds))
-    for f in futs:
-        f.result()
+    run_codec(run, 'C01', cmds, mc=[MC_WIRE, mc_session(run)])
     return vf.finish(run, rule='every pool type x boundary/random values, 1-3 consecutive values per stream, writer/reader '
                                'pairings rotated over all kinds; distinct = distinct (type, writer, reader, values)')
 
@@ -282,16 +275,25 @@ def handle_opts(S, w=None, r=None):
             r["hmode"] = "affine"
 
 
+# properties whose stimuli are valid encodings / values only: the thorough tier repeats them on the ASan+UBSan build
+# (undefined behaviour that leaves the observable result intact is then an event no action accepts)
+ALSO_SANITIZED = ("C01", "C03", "C05", "C06", "C07", "C10", "C15")
+
+
 def run_codec(run, prop, cmds, flavour='plain', mc=None):
-    exe, types_path = vf.get_exe(run, flavour)
     futs = []
     if mc:
         mcs = mc if isinstance(mc, list) else [mc]
         for m in mcs:
             futs.append(start_model_check(run, *m[0], **m[1]))
-    trace = vf.exec_commands(run, exe, cmds, prop.lower() + flavour)
-    rejected = vf.tlc_validate(run, 'TrCodec', 'TrCodec.cfg', trace, env_for(prop, types_path))
-    add_rejections(run, rejected, key_codec(prop), index_cmds(cmds))
+    flavours = [flavour]
+    if run.tier == 'thorough' and flavour == 'plain' and prop in ALSO_SANITIZED:
+        flavours.append('asan')
+    for fl in flavours:
+        exe, types_path = vf.get_exe(run, fl)
+        trace = vf.exec_commands(run, exe, cmds, prop.lower() + fl)
+        rejected = vf.tlc_validate(run, 'TrCodec', 'TrCodec.cfg', trace, env_for(prop, types_path))
+        add_rejections(run, rejected, key_codec(prop), index_cmds(cmds))
     for f in futs:
         f.result()
 
@@ -389,7 +391,7 @@ def check_C06(run):
         if (tid, vf.digest(v)) not in run.distinct:
             cmds.append({"c": "wcaps", "tid": tid, "v": v, "wks": [], "extra": 0})
             run.distinct.add((tid, vf.digest(v)))
-    cmds = with_resets(cmds, 6)
+    cmds = with_resets(cmds, 6) + [{"c": "forms", "n": 72}]
     run.samples = [c for c in cmds if c.get("c") == "wcaps"][:3]
     run_codec(run, 'C06', cmds, mc=MC_WIRE)
     return vf.finish(run, rule='every pool type x values x every capacity 0..GetSize+2 x {BufferWriter, PedanticBufferWriter, '
@@ -436,10 +438,12 @@ def check_C10(run):
     rcmds = []
     for iname, I in ifaces.items():
         for m in I["methods"]:
-            if not m["bound"]:
+            void = m["ret"].get("k") == "void"
+            if not m["bound"] and not void:
                 continue
             for v in gen.values(m["args"])[:3 if thorough else 2]:
-                for on in ("reqw", "repr", "reqr", "repw"):
+                # a method without a return value has no reply: only its request writer can fail on the caller's side
+                for on in (("reqw",) if void else ("reqw", "repr", "reqr", "repw")):
                     for k in range(1, 16):
                         for e in ((13, 16) if on in ("reqw", "repw") else (12, 14)):
                             rcmds.append({"c": "rpc", "iface": iname,
@@ -492,7 +496,58 @@ def check_C11(run):
             # a cut encoding read first (fails by truncation), then the full one
             groups.append(g)
             run.distinct.add((tid, vf.digest(v)))
-    cmds = with_group_resets(groups, 6)
+    # long strings / integral vectors (4097, 9000, 70000 elements: beyond page- and 64 KiB-sized thresholds), alone and
+    # one level down, into destinations that hold a short value, a long value, or what a truncated read left behind
+    def long_value(S, n, salt):
+        k = S["k"]
+        if k == "str":
+            return {"cw": S["cw"], "b": [b for i in range(n) for b in word(97 + (i + salt) % 26, S["cw"])]}
+        if k == "vec" and S["e"]["k"] == "int":
+            return {"n": [word((i * 7 + salt) % 251, S["e"]["w"]) for i in range(n)]}
+        return None
+    def with_long(S, n, salt, base):
+        if S["k"] in ("str", "vec"):
+            return long_value(S, n, salt)
+        if S["k"] in ("wrap", "ref"):
+            return with_long(S["e"], n, salt, base)
+        if S["k"] in ("struct", "tup", "pair"):
+            for j, m in enumerate(S["m"]):
+                lv = long_value(m, n, salt)
+                if lv is not None:
+                    v = {"m": list(base["m"])}
+                    v["m"][j] = lv
+                    return v
+        if S["k"] == "opt":
+            lv = long_value(S["e"], n, salt)
+            return {"o": [lv]} if lv is not None else None
+        if S["k"] == "var":
+            for j, m in enumerate(S["m"]):
+                lv = long_value(m, n, salt)
+                if lv is not None:
+                    return {"i": word(j, 4), "v": lv}
+        return None
+    long_tids = [t for t in ("str8", "str16", "str32", "vec<u8>", "vec<u16>", "vec<u64>", "SA", "SB", "tup<u8,str8,vec<u8>>",
+                             "pair<u8,str8>", "opt<str8>", "opt<vec<u8>>", "var<i32,str8>", "WStr", "WVec") if t in types]
+    lgroups = []
+    for tid in long_tids:
+        S = types[tid]
+        base = per_type.get(tid, [None])[-1]
+        esz = max([x.get("cw", x.get("e", {}).get("w", 1)) for x in walk(S) if x["k"] in ("str", "vec")] + [1])
+        for n in ((4097, 9000, 70000 // esz) if thorough else (4097, 70000 // esz)):
+            v = with_long(S, n, 1, base)
+            if v is None:
+                continue
+            w = {"c": "w", "wk": "pedantic", "cap": 1 << 21, "items": [{"tid": tid, "v": v}], "nolog": 1}
+            g = [w, {"c": "r", "rk": "pedantic", "src": "last", "items": [{"tid": tid}], "nolog": 1}]
+            for pv in (per_type.get(tid, [])[:2] + [with_long(S, 5000, 2, base)]):
+                if pv is not None:
+                    g.append({"c": "r", "rk": "pedantic", "src": "last", "items": [{"tid": tid, "prior": {"kind": "value", "v": pv}}], "nolog": 1})
+            for k in (2, 3, 4):
+                g.append({"c": "r", "rk": "pedantic", "src": "last",
+                          "items": [{"tid": tid, "prior": {"kind": "failread", "b": "last", "k": k, "e": 16}}], "nolog": 1})
+            lgroups.append(g)
+            run.distinct.add((tid, n))
+    cmds = with_group_resets(groups, 6) + with_group_resets(lgroups, 1)
     run.samples = groups[0][:4]
     run_codec(run, 'C11', cmds, flavour='asan')
     return vf.finish(run, rule='every pool type x pairs (prior value, encoding) with priors produced by assignment, and by reads '
@@ -819,7 +874,7 @@ def check_C17(run):
     k = 0
     for side in ("r", "w"):
         full, sample = seqs[side]
-        kinds = (["pedantic", "buffer", "sstream", "fstream", "fd", "fdburst"] if side == "r"
+        kinds = (["pedantic", "buffer", "sstream", "fstream", "fd", "fdburst", "fdbad"] if side == "r"
                  else ["pedantic", "buffer", "constexpr", "sstream", "fd", "lstream", "fdfull"])
         lens = (0, 1, 2, 3, 4, 6, 12) if side == "r" else (0, 1, 2, 3, 4, 6)
         allseqs = list(full) + list(sample) + random_sequences(rng, side, 2000 if thorough else 500, 10)
@@ -827,7 +882,7 @@ def check_C17(run):
             for ln in (lens if (thorough or len(seq) <= 2) else (lens[k % 6],)):
                 for kind in kinds:
                     for bounded in (False, True):
-                        if kind in ("fd", "fdburst", "fdfull") and any(c["op"] in ("skip", "pad", "skipw", "padw") for c in seq):
+                        if kind in ("fd", "fdburst", "fdfull", "fdbad") and any(c["op"] in ("skip", "pad", "skipw", "padw") for c in seq):
                             continue
                         if not bounded and any(c["op"] in ("pad", "padw") for c in seq):
                             continue
@@ -853,6 +908,11 @@ def check_C17(run):
                             c["cap"] = ln
                         cmds.append(c)
                         k += 1
+    # a sink that stops taking bytes must end a Skip of ~2^64 bytes at once; a change that loses this would make each
+    # such command run into the executor's timeout, so they go last (after everything that can be judged quickly)
+    slow = [c for c in cmds if c["kind"] == "lstream" and any(o["op"] == "skipw" and not isinstance(o["n"], int) for o in c["ops"])]
+    slow_ids = set(id(c) for c in slow)
+    cmds = [c for c in cmds if id(c) not in slow_ids] + slow[:200]
     cmds.append({"c": "ct"})      # 67 generated constexpr values serialised in constant expressions and at run time
     cmds = with_resets(cmds, 200)
     run.samples = [c for c in cmds if c.get("c") == "io"][:2] + [c for c in cmds if c.get("side") == "w"][:1]
@@ -863,7 +923,7 @@ def check_C17(run):
     return vf.finish(run, rule='the same TLC-generated and random call sequences executed directly on every reader '
                                '(BufferReader, PedanticBufferReader, StreamReader over stringstream and ifstream, FdReader, '
                                'BoundedReader over each) and every writer (Buffer within capacity, Pedantic, Constexpr, Stream, '
-                               'Fd, StreamWriter over a stream that takes only cap bytes, FdWriter on /dev/full, BoundedWriter '
+                               'Fd, StreamWriter over a stream that takes only cap bytes, FdWriter on /dev/full, FdReader on an unreadable descriptor, BoundedWriter '
                                'over each), element widths 1/2/4/8, accessors (size/capacity/remaining/empty) after every call; '
                                'distinct = distinct commands')
 
@@ -894,7 +954,7 @@ def check_C18(run):
     fut = start_model_check(run, 'MC_Fn', 'MC_Fn.cfg', workers=2)
     keys = [(0, 0), ((1 << 64) - 1, (1 << 64) - 1), (0x0706050403020100, 0x0f0e0d0c0b0a0908), (1, 0), (0, 1 << 63),
             (0xbaadf00ddeadbeef, 0x0123456789abcdef), (0xdeadcafebaadf00d, 0x0123456789abcdef)]
-    cmds = [{"c": "names"}]
+    cmds = [{"c": "names"}, {"c": "sip", "ctarrays": 1}]
     lengths = list(range(0, 81)) + list(range(250, 261)) if thorough else list(range(0, 34)) + [63, 64, 65, 255, 256, 257]
     k = 0
     for n in lengths:
@@ -909,12 +969,22 @@ def check_C18(run):
             cmds.append({"c": "sip", "k0": word(k0, 8), "k1": word(k1, 8), "msg": msg})
             run.distinct.add((n, k0, k1, vf.digest(msg)))
             k += 1
+    # zero bytes at the start, in the middle, at the end, and nothing but zeros: also through the array entry point
+    # (fixed sizes instantiated in the executor), where every byte of the array counts
+    for n in list(range(1, 18)) + [23, 24, 25, 31, 32, 33, 64]:
+        for zs in ({0}, {n // 2}, {n - 1}, {n // 3, n - 1}, set(range(n)), set(range(n // 2, n))):
+            msg = [0 if i in zs else (65 + 3 * i) % 256 or 1 for i in range(n)]
+            k0, k1 = keys[k % len(keys)]
+            cmds.append({"c": "sip", "k0": word(k0, 8), "k1": word(k1, 8), "msg": msg})
+            run.distinct.add((n, k0, k1, vf.digest(msg)))
+            k += 1
     cmds = with_resets(cmds, 4)
     run.samples = cmds[1:4]
     run_fn(run, 'C18', cmds)
     fut.result()
     return vf.finish(run, rule='messages of every length 0..33 (0..80 and 250..260 thorough) incl. every residue mod 8 and >255, '
-                               'bytes over the whole range, presented as uint8_t and as char buffers, fixed/patterned/random '
+                               'bytes over the whole range incl. zero bytes anywhere, presented as uint8_t and as char buffers through the '
+                               'pointer+size and the array entry points (and constant arrays hashed at compile time), fixed/patterned/random '
                                '128-bit keys; 26 generated names x (NOP_TABLE_NS hash at compile time, at run time and on the '
                                'wire; NOP_INTERFACE / NOP_INTERFACE32 hash; NOP_METHOD selector); distinct = distinct (length, '
                                'key, message)')
@@ -989,11 +1059,13 @@ def random_life_ops(rng, machine, n):
         t = rng.random() < 0.15
         if machine == "variant":
             name = rng.choice(["new_empty", "new_ev", "new_a", "new_b", "new_c", "new_i", "new_copy", "new_move", "assign_copy", "assign_move",
-                               "assign_a", "assign_b", "assign_c", "assign_i", "assign_ev", "become", "visit", "destroy", "new_a", "assign_b"])
+                               "assign_a", "assign_b", "assign_c", "assign_i", "assign_ev", "become", "visit", "destroy", "new_a", "assign_b",
+                               "new_sub_a", "new_sub_b", "new_sub_empty", "assign_sub_a", "assign_sub_b", "assign_sub_empty",
+                               "swap_a", "take_a"])
             op = {"op": name, "o": o}
             if name in ("new_a", "new_b", "new_c", "assign_a", "assign_b", "assign_c"):
                 op.update({"val": x, "throw": t})
-            elif name in ("new_i", "assign_i"):
+            elif name in ("new_i", "assign_i", "new_sub_a", "new_sub_b", "assign_sub_a", "assign_sub_b", "swap_a", "take_a"):
                 op["val"] = x
             elif name in ("new_copy", "assign_copy"):
                 op.update({"p": p, "throw": t})
@@ -1015,7 +1087,10 @@ def random_life_ops(rng, machine, n):
         else:
             names = ["new_empty", "new_val", "new_rval", "new_copy", "new_move", "assign_copy", "assign_move", "assign_val",
                      "assign_rval", "clear", "take", "destroy", "new_val", "assign_val"]
-            if machine == "result":
+            if machine == "result_void":
+                names = ["new_empty", "new_copy", "new_move", "assign_copy", "assign_move", "clear", "destroy",
+                         "new_err", "new_err", "assign_err", "assign_err"]
+            elif machine == "result":
                 names += ["new_err", "assign_err", "assign_err"]
             else:
                 names += ["assign_conv_move", "assign_conv_copy"]
@@ -1080,13 +1155,14 @@ def check_C13(run):
     thorough = run.tier == 'thorough'
     rng = random.Random(run.seed)
     cmds = [{"c": "cmp"}, {"c": "msg"}]
-    cmds += life_cmds(run, [("optional", ["optional", "optional_int", "entry"]), ("result", ["result"])], thorough, rng)
+    cmds += life_cmds(run, [("optional", ["optional", "optional_int", "entry"]), ("result", ["result"]),
+                            ("result_void", ["result_void"])], thorough, rng)
     cmds = with_resets(cmds, 100)
     run.samples = cmds[1:3] + [c for c in cmds if c.get("machine") == "result"][:1]
     run.distinct = set(vf.digest(c) for c in cmds)
     run_obj(run, 'C13', cmds, 'asan')
     return vf.finish(run, rule='every applicable operation history of length 3 over 2 objects for Optional<Tracked>, '
-                               'Optional<int>, Entry<Tracked,5> and Result<E,Tracked> (TLC-generated) plus random histories; all 18 '
+                               'Optional<int>, Entry<Tracked,5>, Result<E,Tracked> and Status<void> (TLC-generated) plus random histories; all 18 '
                                'Optional comparison operators on all operand states {empty,1,2}^2; GetErrorMessage for codes '
                                '0..19; ASan; distinct = distinct histories')
 
@@ -1246,9 +1322,7 @@ def check_C07(run):
     run.samples = groups[0] + groups[len(groups) // 2]
     run.distinct = set(vf.digest(g) for g in groups)
     run.exhaustive = thorough
-    trace = vf.exec_commands(run, exe, cmds, 'c07')
-    rejected = vf.tlc_validate(run, 'TrCodec', 'TrCodec.cfg', trace, env_for('C07', types_path))
-    add_rejections(run, rejected, key_codec('C07'), index_cmds(cmds))
+    run_codec(run, 'C07', cmds)
     fut.result()
     return vf.finish(run, rule='every ordered pair (writer, reader) of the %d table definitions reachable within 4 evolution '
                                'steps in Tables.tla (TLC-emitted version pool) x assignments of empty/non-empty to the writer\'s '
@@ -1285,7 +1359,7 @@ def check_C08(run):
     run.samples = cmds[1:4]
     run_codec(run, 'C08', cmds)
     return vf.finish(run, rule='TLC-generated table encodings (Gen_TableMut.tla) for %d table types x every assignment of '
-                               'empty/non-empty entries x {valid, reversed order, bad hash, count +-1, unknown entries, duplicate '
+                               'empty/non-empty entries x {valid, reversed order, wrong hashes (+-1, 0, all ones, halves / single bytes cleared, top bit, reversed), count +-1, unknown entries, duplicate '
                                'entry, padded entry, declared size too large/small/zero/huge, corrupt value, value truncated inside '
                                'its frame}, read through pedantic/stream/buffer/bounded readers and judged by Dec; distinct = '
                                'distinct (type, mutation)' % len(chosen))
@@ -1358,6 +1432,11 @@ def rpc_ifaces():
     i32 = {"k": "int", "w": 4, "s": True}
     u8 = {"k": "int", "w": 1, "s": False}
     u16 = {"k": "int", "w": 2, "s": False}
+    u32 = {"k": "int", "w": 4, "s": False}
+    u64 = {"k": "int", "w": 8, "s": False}
+    i8 = {"k": "int", "w": 1, "s": True}
+    i16 = {"k": "int", "w": 2, "s": True}
+    i64 = {"k": "int", "w": 8, "s": True}
     s8 = {"k": "str", "cw": 1}
     vu8 = {"k": "vec", "e": u8}
     point = {"k": "struct", "m": [i32, s8]}
@@ -1365,19 +1444,30 @@ def rpc_ifaces():
     diverr = {"k": "enum", "w": 1, "s": False}
     def tup(*m):
         return {"k": "tup", "m": list(m)}
-    def meth(label, args, ret, bound=True, calls=None, sel=None):
+    def meth(label, args, ret, bound=True, calls=None, sel=None, cargs=None):
         d = {"name": _b(label), "label": label, "args": args, "ret": ret, "bound": bound, "calls": calls or [label]}
+        if cargs:
+            d["cargs"] = cargs      # call name -> the caller's (conforming) argument types
         if sel is not None:
             d["sel"] = sel
         return d
     return {
-        "calc": {"name": _b("io.verif.Calc"), "width": 8, "methods": [
-            meth("Sum", tup(i32, i32), i32), meth("Concat", tup(s8, s8), s8),
+        "calc": {"name": _b("io.verif.Calc"), "namestr": "io.verif.Calc", "width": 8, "methods": [
+            meth("Sum", tup(i32, i32), i32, calls=["Sum", "SumU16U8", "SumI8I16"],
+                 cargs={"SumU16U8": tup(u16, u8), "SumI8I16": tup(i8, i16)}),
+            meth("Concat", tup(s8, s8), s8),
             meth("Echo", tup(vu8), vu8, calls=["Echo", "EchoArr"]),
             meth("Stats", tup(point, {"k": "opt", "e": i32}), point), meth("Choose", tup(ios), ios),
             meth("Div", tup(i32, i32), {"k": "res", "err": diverr, "e": i32}),
-            meth("Unbound", tup(i32), i32, bound=False)]},
-        "small": {"name": _b("io.verif.Small"), "width": 4, "methods": [
+            meth("Unbound", tup(i32), i32, bound=False),
+            meth("Seek", tup(i64), i64, calls=["Seek", "SeekU32", "SeekU8", "SeekI16"],
+                 cargs={"SeekU32": tup(u32), "SeekU8": tup(u8), "SeekI16": tup(i16)}),
+            meth("Reserve", tup(u64), u64, calls=["Reserve", "ReserveU16", "ReserveI32"],
+                 cargs={"ReserveU16": tup(u16), "ReserveI32": tup(i32)}),
+            meth("Scale", tup(i32, i64), i64, calls=["Scale", "ScaleU8U32", "ScaleI16I8"],
+                 cargs={"ScaleU8U32": tup(u8, u32), "ScaleI16I8": tup(i16, i8)}),
+            meth("Notify", tup(s8, {"k": "vec", "e": u32}), {"k": "void"}, bound=False)]},
+        "small": {"name": _b("io.verif.Small"), "namestr": "io.verif.Small", "width": 4, "methods": [
             meth("Inc", tup(u8), u8), meth("Name", tup(), s8),
             meth("Fixed", tup(u16, u16), u16, sel=word(42, 4)), meth("Other", tup(u8), u8, bound=False)]},
     }
@@ -1405,7 +1495,7 @@ def check_C14(run):
         argvals = {}
         for m in I["methods"]:
             for cn in m["calls"]:
-                vs = gen.values(m["args"])
+                vs = gen.values(m.get("cargs", {}).get(cn, m["args"]))
                 if cn == "EchoArr":
                     vs = [{"m": [{"n": [[(7 * i + j) % 256] for j in range(3)]}]} for i in range(4)]
                 argvals[cn] = vs
@@ -1477,12 +1567,39 @@ def _rpc_step(rng):
     return {"op": "rpc", "slot": 0, "val": 0, "iface": "calc", "calls": calls}
 
 
+def _io_step(rng, pad):
+    """A call sequence on a memory-backed reader / writer owned by the thread; `pad` is the thread's own padding value."""
+    side = rng.choice(["w", "w", "r"])
+    seq = random_sequences(rng, side, 1, rng.randrange(2, 7))[0]
+    if side == "w":
+        # unbounded sinks asked to skip ~2^64 bytes never finish; block sizes stay small inside threads
+        seq = [c for c in seq if not (c["op"] == "skipw" and c["n"] < 0)]
+    ops = io_ops(seq, side, rng.randrange(1000))
+    for o in ops:
+        if "pad" in o:
+            o["pad"] = pad
+    kind = rng.choice(["sstream", "pedantic", "lstream"] if side == "w" else ["sstream", "pedantic", "buffer"])
+    bounded = rng.random() < 0.5
+    if not bounded:
+        ops = [o for o in ops if o["op"] not in ("pad", "padw")]
+    cmd = {"c": "io", "side": side, "kind": kind, "bounded": bounded, "direct": True, "limit": rng.randrange(0, 40) if bounded else 0,
+           "ops": ops}
+    if side == "r":
+        cmd["src"] = [(pad + 3 * i) % 256 for i in range(rng.randrange(0, 24))]
+    else:
+        cmd["cap"] = rng.randrange(0, 48)
+    return {"op": "io", "slot": 0, "val": 0, "cmd": cmd}
+
+
 def random_tl_program(rng, n):
     prog = []
+    pad = rng.randrange(1, 256)
     for _ in range(n):
-        op = rng.choice(["init", "init", "set", "clear", "codec", "codec", "rpc"])
+        op = rng.choice(["init", "initialize", "set", "clear", "codec", "codec", "rpc", "io", "io"])
         if op == "rpc":
             prog.append(_rpc_step(rng))
+        elif op == "io":
+            prog.append(_io_step(rng, pad))
         else:
             prog.append({"op": op, "slot": rng.randrange(3), "val": rng.randrange(1, 1000)})
     return prog
@@ -1527,8 +1644,9 @@ def check_C19(run):
     add_rejections(run, rejected, key_tl, index_cmds(cmds))
     return vf.finish(run, rule='TLC-enumerated interleavings (MC_Threads: 2 threads exhaustively, 3 threads in the thorough tier) of '
                                'ThreadLocal Initialize/Get/Set/Clear programs replayed by real threads in lock step, plus 4-16 '
-                               'free-running threads doing ThreadLocal operations on shared slot types and serializer round trips '
-                               'on their own objects; ThreadSanitizer build: a report is a Race event; distinct = distinct commands')
+                               'free-running threads doing ThreadLocal operations on shared slot types, serializer round trips, RPC '
+                               'connections and reader/writer call sequences (thread-specific padding values) on their own objects; '
+                               'ThreadSanitizer build: a report is a Race event; distinct = distinct commands')
 
 
 def replay(run, path):
